@@ -71,6 +71,10 @@ type Flow struct {
 	Extra       []Fund `json:"extra,omitempty"`        // bid2d: the seller's AcceptBid2DArgs.ExtraUTXOs (P2PKH of the seller key; Key unused)
 	UTXOSeq     uint32 `json:"utxo_seq,omitempty"`     // UTXO.SequenceNumber of every UTXO object handed in
 	OrdUnlocker bool   `json:"ord_unlocker,omitempty"` // the ordinal UTXO object carries the seller's Unlocker as well
+	// round 11: ... or, when this is a valid key, the unlocker of ANOTHER key (a wallet's default unlocker
+	// attached to every UTXO object); the flows take an explicit OrdinalUnlocker argument, which is the
+	// documented signer of the ordinal input
+	OrdUnlockerKey pbt.Hex `json:"ord_unlocker_key,omitempty"`
 	// what happens to the partially signed transaction between maker and taker (transit_test.go)
 	Transit       []Alter `json:"transit,omitempty"`
 	ValidateFirst bool    `json:"validate_first,omitempty"` // the taker calls Validate on the received object before the acceptance
@@ -263,6 +267,10 @@ func (w *world) ordUTXO() *bt.UTXO {
 	u := &bt.UTXO{TxID: append([]byte{}, w.c.OrdTxID...), Vout: w.c.OrdVout, LockingScript: script(w.ordScript), Satoshis: w.c.OrdSats, SequenceNumber: w.c.UTXOSeq}
 	if w.c.OrdUnlocker && w.seller != nil {
 		var su bt.Unlocker = &unlocker.Simple{PrivateKey: w.seller}
+		if validKey(w.c.OrdUnlockerKey) {
+			k, _ := bec.PrivKeyFromBytes(bec.S256(), w.c.OrdUnlockerKey)
+			su = &unlocker.Simple{PrivateKey: k}
+		}
 		u.Unlocker = &su
 	}
 	return u
@@ -574,6 +582,9 @@ func checkFlow(ctx *pbt.Ctx, c Flow, fee bool) error {
 	}
 	if c.OrdUnlocker {
 		ctx.Label("args:ordinal-utxo-unlocker")
+		if validKey(c.OrdUnlockerKey) {
+			ctx.Label("args:ordinal-utxo-unlocker-of-another-key")
+		}
 	}
 	if c.Std.Sat > c.Std.Bytes {
 		ctx.Label("rate:>1sat/B")
@@ -871,6 +882,12 @@ func genFlowWith(t *rapid.T, variant string, base *Flow, sh Share) Flow {
 		c.UTXOSeq = rapid.SampledFrom([]uint32{1, 0xfffffffe, 0xffffffff, 0x80000000, 12345}).Draw(t, "utxo_seq_v")
 	}
 	c.OrdUnlocker = rapid.IntRange(0, 3).Draw(t, "ord_unlocker") == 0
+	if c.OrdUnlocker && rapid.Bool().Draw(t, "ord_unlocker_other") {
+		k := rapid.SliceOfN(rapid.Byte(), 32, 32).Draw(t, "ord_unlocker_key")
+		k[0] &= 0x7f
+		k[31] |= 1
+		c.OrdUnlockerKey = k
+	}
 	genTransit(t, &c)
 	return c
 }
